@@ -1,0 +1,13 @@
+// SPDX-FileCopyrightText: 2026 The Pion community <https://pion.ly>
+// SPDX-License-Identifier: MIT
+
+//go:build !verif
+
+package test
+
+import (
+	"github.com/pion/rtcp"
+	"github.com/pion/rtp"
+)
+
+func (s *MockStream) verifEv(*rtp.Header, []byte, []rtcp.Packet, []byte, error) any { return nil }
